@@ -20,11 +20,11 @@ GROUPS = [
  _p("sync_handler_rx", "COSyncHandler", 4, _PDO, {"C13": "quick", "C16": "quick", "C01": "quick"}),
  _p("sync_add", "COSyncAdd", 0, _PDO, {"C12": "quick", "C13": "quick", "C16": "quick", "C01": "quick"}, harness="pdo_reset_fn.c", defs=["VW_OP=0"]),
  _p("sync_remove", "COSyncRemove", 1, _PDO, {"C12": "quick", "C13": "quick", "C16": "quick", "C01": "quick"}, harness="pdo_reset_fn.c", defs=["VW_OP=1"]),
- _p("tpdo_reset", "COTPdoReset", 2, _PDO, {"C12": "quick", "C13": "quick", "C14": "quick", "C01": "quick"}, harness="pdo_reset_fn.c", defs=["VW_OP=2", "VW_MAPN_MAX=2"], unwind={"COTPdoMapAdd.0": 33},
+ _p("tpdo_reset", "COTPdoReset", 2, _PDO, {"C12": "quick", "C13": "quick", "C14": "quick", "C01": "quick"}, harness="pdo_reset_fn.c", defs=["VW_OP=2", "VW_MAPN_MAX=2"], unwind={"COTPdoMapAdd.0": 33, "COTPdoMapDelNum.0": 33}, sat="cadical",
     bounded="stored mapping count <= 2 entries (the mapping itself is the tpdo_getmap group); everything else symbolic"),
  _p("rpdo_reset", "CORPdoReset", 3, _PDO, {"C13": "quick", "C12": "quick", "C14": "quick", "C01": "quick"}, harness="pdo_reset_fn.c", defs=["VW_OP=3", "VW_MAPN_MAX=2"], unwind={"CORPdoGetMap.1": 4, "CORPdoGetMap.0": 8},
     bounded="stored mapping count <= 2 entries (the mapping itself is the rpdo_getmap group); everything else symbolic"),
- _p("tpdo_init", "COTPdoInit", 4, _PDO, {"C12": "quick", "C20": "quick", "C01": "quick"}, harness="pdo_reset_fn.c", defs=["VW_OP=4", "VW_MAPN_MAX=1"], unwind={"COTPdoMapAdd.0": 33, "COTPdoMapClear.0": 33}, timeout=900,
+ _p("tpdo_init", "COTPdoInit", 4, _PDO, {"C12": "quick", "C20": "quick", "C01": "quick"}, harness="pdo_reset_fn.c", defs=["VW_OP=4", "VW_MAPN_MAX=1"], unwind={"COTPdoMapAdd.0": 33, "COTPdoMapClear.0": 33, "COTPdoMapDelNum.0": 33}, timeout=900,
     bounded="stored mapping count <= 1 entry (the mapping itself is the tpdo_getmap group); 4 TPDOs, everything else symbolic"),
  _p("rpdo_init", "CORPdoInit", 5, _PDO, {"C13": "quick", "C20": "quick", "C01": "quick"}, harness="pdo_reset_fn.c", defs=["VW_OP=5", "VW_MAPN_MAX=1"], unwind={"CORPdoGetMap.1": 4, "CORPdoGetMap.0": 8}, timeout=900,
     bounded="stored mapping count <= 1 entry (the mapping itself is the rpdo_getmap group); 4 RPDOs, everything else symbolic"),
